@@ -49,7 +49,7 @@ ASSUMPTIONS = {"C16": [
 EXPECTED_PROBES = {"C16": ["probe:context_switch", "probe:ident_reused", "probe:hyper_branch", "probe:optimal_branch",
                            "kind:preset:auto", "kind:auto-nocache", "kind:auto-cache", "kind:reusable-hyper", "kind:reusable-rgreedy",
                            "sampler:pct", "sampler:walk", "probe:same_size_pair_queried", "probe:switch_inside_reusable_search", "probe:twin_queried",
-                           "probe:contract_through_interface_caches"]}
+                           "probe:contract_through_interface_caches", "probe:nested_reentrant_query"]}
 
 
 def violation_class(v):
@@ -79,6 +79,57 @@ def _whitelist(base, name, full):
         return False
     names = _WL_FILES[base]
     return names is None or name in names
+
+
+# ---------------------------------------------------------------------------
+# a hyper method that re-enters the shared optimizer from inside one of its own trials (same thread), the way
+# cotengra's own partition builders do (build_divide contracts its groups with super_optimize='auto-hq')
+
+_NESTED = {"opt": None, "depth": 0, "answers": []}
+
+
+def _nested_trial(inputs, output, size_dict, **kw):
+    import cotengra as ctg
+    from cotengra.pathfinders.path_greedy import trial_greedy
+
+    opt = _NESTED["opt"]
+    n = len(inputs)
+    if opt is None or n <= 4 or _NESTED["depth"] >= 2:
+        return trial_greedy(inputs, output, size_dict)
+    k = n // 2 + 1
+    sub_inputs = tuple(tuple(t) for t in inputs[:k])
+    outside = set(output)
+    for t in inputs[k:]:
+        outside.update(t)
+    sub_output = []
+    for t in sub_inputs:
+        for ix in t:
+            if ix in outside and ix not in sub_output:
+                sub_output.append(ix)
+    sub_output = tuple(sub_output)
+    sub_sizes = {ix: size_dict[ix] for t in sub_inputs for ix in t}
+    _NESTED["depth"] += 1
+    try:
+        sub_tree = opt.search(sub_inputs, sub_output, sub_sizes)
+    finally:
+        _NESTED["depth"] -= 1
+    _NESTED["answers"].append(({"inputs": [list(t) for t in sub_inputs], "output": list(sub_output), "size_dict": sub_sizes}, sub_tree))
+    ssa = []
+    for (i, j) in sub_tree.get_ssa_path():
+        ssa.append(tuple(x if x < k else n + (x - k) for x in (i, j)))
+    # the group first (ids k.. of the sub path become n.. in the full path), the rest greedily
+    import warnings
+
+    with warnings.catch_warnings():
+        warnings.simplefilter("ignore")
+        return ctg.ContractionTree.from_path(inputs, output, size_dict, ssa_path=ssa, autocomplete=True, optimize="greedy")
+
+
+def _register_nested():
+    from cotengra.hyperoptimizers import hyper as H
+
+    if "sim-nested" not in H._PATH_FNS:
+        H.register_hyper_function("sim-nested", _nested_trial, {})
 
 
 # ---------------------------------------------------------------------------
@@ -153,7 +204,7 @@ def gen_case(prop, seed, tier):
         threads[b]["start_after"] = a
         threads[b]["ident"] = threads[a]["ident"]
     cfg = {"kind": kind, "optimal_cutoff": cutoff, "max_repeats": sw.randint(1, 4), "opt_seed": sw.randrange(2 ** 31),
-           "methods": sw.choice([["greedy"], ["random-greedy"], ["greedy", "labels"]]),
+           "methods": sw.choice([["greedy"], ["random-greedy"], ["greedy", "labels"], ["sim-nested"], ["sim-nested", "greedy"]]),
            "max_time": sw.choice([None, None, "rate:1e6", "rate:1e9"]),
            "directory": sw.random() < 0.4, "overwrite": sw.choice([False, False, True, "improved"]),
            "reconf": sw.random() < 0.5, "path_cache": sw.random() < 0.5}
@@ -225,6 +276,7 @@ def run_case(prop, case):
     import cotengra as ctg
 
     simthreads.install_shim()
+    _register_nested()
     seams.install()
     seams.set_entropy(prng.H(case["seed"], "os-entropy"))
     log = EventLog()
@@ -261,6 +313,9 @@ def run_case(prop, case):
             _reset_process_globals()
             prng.reseed_globals(prng.H(case["seed"], "threads"))
             shared = _make_shared(ctg, cfg, scratch)
+            _NESTED["opt"] = shared if not isinstance(shared, str) else None
+            _NESTED["depth"] = 0
+            _NESTED["answers"] = []
 
             def body(ti, th):
                 def fn():
@@ -319,6 +374,11 @@ def run_case(prop, case):
             counters["probe:optimal_branch"] += 1
         else:
             counters["probe:hyper_branch"] += 1
+        if isinstance(ans, simthreads.SimDeadlock):
+            violations.append({"oracle": "deadlock",
+                               "detail": f"thread {ti} query {k} ({via}, contraction #{qi}): {ans}",
+                               "sig": {"kind": kind, "via": via, "threads": len(case["threads"])}})
+            continue
         if isinstance(ans, Exception):
             violations.append({"oracle": "query-raised",
                                "detail": f"thread {ti} query {k} ({via}, contraction #{qi}, {len(q['inputs'])} tensors) raised {type(ans).__name__}: {ans}",
@@ -350,6 +410,17 @@ def run_case(prop, case):
                                "sig": {"kind": kind, "via": via, "threads": len(case["threads"]),
                                        "sequential": sched.switches == 0}})
         log.add("ans", ti, k, qi, via, ans.get_ssa_path() if via == "search" else [list(p) for p in ans])
+    for (subq, subtree) in _NESTED["answers"]:
+        counters["probe:nested_reentrant_query"] += 1
+        why = _check_answer("search", subtree, subq)
+        if why:
+            violations.append({"oracle": "answer-belongs-to-another-query",
+                               "detail": f"nested (re-entrant, same thread) query about a {len(subq['inputs'])}-tensor sub-contraction: {why}",
+                               "sig": {"kind": kind, "via": "nested", "threads": len(case["threads"]), "sequential": sched.switches == 0}})
+    _NESTED["opt"] = None
+    _NESTED["answers"] = []
+    if sched.lock_contentions:
+        counters["probe:lock_contention"] += sched.lock_contentions
     qset = {pool[a[2]]["inputs"].__len__() for a in answers}
     qdistinct = {a[2] for a in answers}
     if len(qdistinct) > len(qset):
